@@ -4,6 +4,7 @@ import Uquic.Model.Crypto.KeyPhase
 import Uquic.Spec.PktMon
 import Uquic.Spec.PNMon
 import Uquic.Model.Crypto.Prim
+import Uquic.Model.Crypto.UInitial
 
 open Uquic.Oracle Uquic.Model.Packet Uquic.Model.Bytes Uquic.Spec.PktMon
 open Uquic.Model.KeyPhase (KA Env Pkt Res)
@@ -76,7 +77,9 @@ def fmtOpened (o : Opened) (kp : Option Nat) : String :=
 
 /-- monitors of an open op on the implementation's output -/
 def openMons (r : Rec) (mu : String) (arg : Nat) (impl : String) (epoch : String) (gHigh : Int) (sawReserved : Bool) : List Fail :=
-  let tamper := isTamper r.data mu arg
+  -- only the QUIC packet counts: zero padding after it in the datagram is not part of the protected packet
+  let pktLen := if r.long then r.hdr.length + r.payload.length + 16 else r.data.length + 4
+  let tamper := mu == "own" || (mutate r.data mu arg).take pktLen != r.data.take pktLen
   let pnLen := pnLenOf (r.hdr.headD 0)
   -- a genuine packet, same keys, inside the decoding window of what the receiver reported so far, must open
   let f0 : List Fail :=
@@ -169,6 +172,41 @@ def step (s : St) (op impl : String) : St × StepOut :=
       let s := if long then s else { s with ua := s.ua.set dir ((s.ua.getD dir {}).seal pn).1 }
       if pnLen + payload.length < 4 then (s, mk "PANIC" ["seal:panic-no-sample"])
       else (s, mk "<no-panic-expected>" [])
+  | "useal" =>
+    let id := (arg 1).toNat
+    let pnLen := (arg 5).toNat; let pn := arg 6
+    let payload := (ofHex (sarg 7)).getD []
+    let packetSize := (arg 8).toNat; let udpMin := (arg 9).toNat
+    if pnLen < 1 || pnLen > 4 then (s, mk "skip") else
+    match implBytes impl "tmpl=" with
+    | none => (s, mk "<no-template>")
+    | some tmpl =>
+      -- the client's Initial keys from the RFC derivation; real AES-128-GCM and AES header protection
+      let ks := s.lk.1
+      let k : Keys := { aead := { enc := fun n a m => Uquic.Model.Prim.gcmSeal ks.key n a m, dec := fun _ _ _ => none },
+                        iv := ks.iv, hp := fun smp i => (aesHPMask ks.hp smp).getD i 0, long := true }
+      let padded := Uquic.Model.UInitial.padPayload pnLen payload tmpl.length packetSize
+      let hdr := Uquic.Model.UInitial.setLength tmpl pnLen (Uquic.Model.UInitial.lengthField pnLen padded)
+      match Uquic.Model.UInitial.datagram k tmpl pn.toNat payload packetSize udpMin with
+      | none => (s, mk "PANIC" ["useal:panic"])
+      | some dg =>
+        let implDg := (implBytes impl "dgram=").getD []
+        -- monitors on the implementation's datagram: the Length field must cover packet number, padded
+        -- payload and tag — exactly the bytes of the protected packet — and only zero padding may follow
+        let off := tmpl.length - pnLen
+        let implLen := ((implDg.getD (off - 2) 0).toNat % 64) * 256 + (implDg.getD (off - 1) 0).toNat
+        let want := Uquic.Model.UInitial.lengthField pnLen padded
+        let fails : List Fail :=
+          (if (words impl).any (·.startsWith "dgram=") && implLen ≠ want then
+            [("length_field_covers_packet", "-", s!"pnLen={pnLen} |frames|={payload.length}: Length field {implLen}, packet number + padded payload + tag = {want}")] else []) ++
+          (if (words impl).any (·.startsWith "dgram=") && (implDg.drop (off + want)).any (· ≠ 0) then
+            [("length_field_covers_packet", "-", s!"non-zero bytes follow the packet the Length field ({implLen}) describes")] else []) ++
+          (if pnLen + padded.length < 4 then [("min_sample_padding", "-", "model padding insufficient")] else [])
+        let rec_ : Rec := { long := true, dir := 0, pn := pn, cidLen := 0, hdr := hdr, payload := padded, data := implDg, epoch := s.lkey }
+        ({ s with pk := (id, rec_) :: s.pk.filter (·.1 != id) },
+          mk s!"tmpl={hx tmpl} dgram={hx dg}"
+            ["useal", s!"useal:pnlen{pnLen}", if pnLen + payload.length < 4 then "useal:min-padding" else "useal:roomy",
+             if packetSize > 0 then "useal:exact-size" else "useal:udp-min"] fails)
   | "lopen" =>
     match lookup s.pk (arg 1).toNat with
     | none => (s, mk "skip")
